@@ -405,7 +405,7 @@ PROPS["C17"] = {
             "steps (Send / SendWithSender with its own sender PID, sender 0 without; 1 step in 10 a Request that the target answers with the request's token), then a final marker per target.  "
             "One case in four runs every node WithTLS (mutual authentication against a throw-away CA).  "
             "Per (sender, target) the received sequence must equal the sent one (exactly once, in order, with the sender PID), replies must carry the request's token; afterwards Start on a running "
-            "remote must fail harmlessly, Stop().Wait() twice must return, and a TCP dial to the address must be refused.  Unreachable episodes (6 in quick, 18 in thorough, in parallel; one in six against a peer that accepts TCP connections but presents a certificate of an unrelated CA, one in six against an address that refuses the first attempts and accepts a later one - a forwarder owned by the harness counts the connections it took: reported unreachable although an attempt got through = verdict): k messages "
+            "remote must fail harmlessly, Stop().Wait() twice must return, and a TCP dial to the address must be refused.  Unreachable episodes (9 in quick, 18 in thorough, in parallel; one in six against a peer that accepts TCP connections but presents a certificate of an unrelated CA, one in three against an address that refuses the first attempts and accepts a later one - a forwarder owned by the harness counts the connections it took: reported unreachable although an attempt got through = verdict): k messages "
             "to an address nobody listens on -> RemoteUnreachableEvent for it and exactly k DeadLetterEvents naming its stream writer; then the peer is started on that address and a later send must "
             "arrive there (an extra dead letter instead = no fresh attempt); every third episode runs both nodes WithTLS (the failing dial is tls.Dial); an ActorRestartedEvent for the router or a stream "
             "writer before the RemoteUnreachableEvent = the attempt ended in a crash, and a process that does not survive the episodes is a violation whose replay is the journaled group of episodes.  Peer-restart episodes (6 in quick, 60 in thorough): node A talks to 8..32 peers over established connections "
